@@ -1,4 +1,5 @@
 From Coq Require Extraction.
 From Coq Require Import ExtrOcamlBasic.
 From RM Require Import C13.Driver.
-Extraction "c13_model.ml" run_limits_json run_certs run_linux run_cfi_rules.
+From RM Require C12.Model.
+Extraction "c13_model.ml" run_limits_json run_certs run_linux run_cfi_rules run_adaptive a_ask a_done a_nat_of_z a_z_of_nat C12.Model.stat_loaded C12.Model.stat_corrupt.
